@@ -9,6 +9,14 @@
 // path and a second pass with real signatures use the real verifier.
 // Oracle: the reference loop of DESIGN.md appendix A.3 (func reference below),
 // written from the statement, never from notation.go.
+//
+// Bounds (each pass x 9 limits x 5 reference kinds, pagings = all compositions
+// plus one empty page at every position):
+//
+//	thorough: scripted 4 kinds k<=6; skip policy 4 kinds k<=4; real signatures 3 kinds k<=3
+//	quick:    scripted 4 kinds k<=5; skip policy 3 kinds k<=3 (no empty pages); real signatures 3 kinds k<=2
+//
+// Replay case = {verifier, policy, listing kinds, page sizes, limit, reference kind}.
 package main
 
 import (
@@ -831,9 +839,9 @@ func main() {
 		}
 	} else {
 		spaces = []spaceT{
-			{pScripted, three, 4, false},
+			{pScripted, four, 5, true},
 			{pSkip, three, 3, false},
-			{pReal, three, 2, false},
+			{pReal, three, 2, true},
 		}
 	}
 	fx := buildReal(r, realN)
